@@ -11,6 +11,7 @@ package zonemodel
 
 import (
 	"fmt"
+	"math"
 	"strings"
 
 	wm "verif/harness/wiremodel"
@@ -229,10 +230,20 @@ func (tp Template) HasIter() bool {
 	return false
 }
 
-// Steps is the number of iterations of the range, or -1 if the range is not valid.
+// Steps is the number of iterations of the range, or -1 if the range is not valid. Start and
+// Stop are non-negative, so Stop-Start cannot overflow; the count is exact for every int64 range
+// except 0..MaxInt64 with step 1 (2^63 steps), which is reported as MaxInt64.
 func (g *Generate) Steps() int64 {
 	if g.Step <= 0 || g.Start < 0 || g.Stop < g.Start {
 		return -1
 	}
-	return (g.Stop-g.Start)/g.Step + 1
+	q := (g.Stop - g.Start) / g.Step
+	if q == math.MaxInt64 {
+		return q
+	}
+	return q + 1
 }
+
+// Value is the iterator value of step i (0-based, i < Steps()): Start + i*Step, which never
+// exceeds Stop and therefore cannot overflow.
+func (g *Generate) Value(i int64) int64 { return g.Start + i*g.Step }
